@@ -902,6 +902,35 @@ def _check(case):
                 raise Violation("dump-after-edit", "field %r removed, re-added and moved first: dump %s, "
                                 "before %s" % (n0, short(d.dump()), short(text)))
             dumped_every_way(d, text, "dump-after-edit", "field %r removed, re-added and moved first" % n0)
+        # ... and whatever name spelling or route a later assignment to an existing field uses:
+        # the values of the first two fields are exchanged (both are values of the domain), the
+        # dump must re-read as the exchanged paragraph under the original names, and exchanging
+        # them back must give the first dump again.
+        if len(p["fields"]) >= 2:
+            (n0, v0), (n1, v1) = p["fields"][0], p["fields"][1]
+            s0, s1 = d[n0], d[n1]
+            routes = (("swapcase", str.swapcase), ("lower", str.lower), ("upper", str.upper), ("same", str))
+            for how, spell in routes if len(p["fields"]) <= 50 else routes[:1]:
+                for a, b, want_v0, want_v1 in ((s1, s0, v1, v0), (s0, s1, v0, v1)):
+                    if how == "upper":
+                        d.update({spell(n0): a, spell(n1): b})
+                    else:
+                        d[spell(n0)] = a
+                        d[spell(n1)] = b
+                    now = d.dump()
+                    got = [_items(q) for q in Deb822.iter_paragraphs(now)]
+                    want = [[[n0, G.normalised(want_v0)], [n1, G.normalised(want_v1)]]
+                            + [[n, G.normalised(v)] for n, v in p["fields"][2:]]]
+                    if got != want:
+                        raise Violation("dump-after-edit", "after assigning %s and %s to the existing fields %r and "
+                                        "%r through the names %r and %r (%s) the dump %s reads %s, expected %s"
+                                        % (short(a), short(b), n0, n1, spell(n0), spell(n1),
+                                           "update()" if how == "upper" else "d[name] = value",
+                                           short(now), short(got), short(want)))
+                    dumped_every_way(d, now, "dump-after-edit", "after re-assigning existing fields (%s spelling)" % how)
+                if now != text:
+                    raise Violation("dump-after-edit", "values of %r and %r exchanged and exchanged back (%s "
+                                    "spelling): dump %s, before %s" % (n0, n1, how, short(now), short(text)))
         ls = text.split("\n")
         if ls and ls[-1] == "":
             ls.pop()
